@@ -306,6 +306,7 @@ func init() {
 		return fr.i.env.writes[pathArg(fr.i, a[0])]
 	}
 	harnessAPI["verifFSRoot"] = func(fr *frame, a []value) value { return "/vfs" }
+	harnessAPI["verifFSHome"] = func(fr *frame, a []value) value { return "/home/u" } // = the os.UserHomeDir stub
 	harnessAPI["verifFSList"] = func(fr *frame, a []value) value {
 		// names of files directly under dir, sorted
 		dir := strings.TrimSuffix(pathArg(fr.i, a[0]), "/") + "/"
